@@ -139,12 +139,24 @@ def generate(rng, tier):
         yield c
 
 
+def _nm(n):
+    """topology name of code n: names are arbitrary strings - mixed case, inner / trailing blanks, digits"""
+    return ["t%d", "T%d", "Top %d ", "e-%d_X"][n % 4] % n
+
+
+_CODES = {_nm(n): n for n in range(64)}
+
+
+def _code(name, bad):
+    return _CODES.get(name, bad) if isinstance(name, str) else bad
+
+
 def _mk_edgelist(case):
     from gcmpy.network.edge_list import LightWeightEdgeList
     el = LightWeightEdgeList()
     el.joint_degrees = [tuple(j) for j in case["jds"]]
     el.edge_list = [tuple(e) for e in case["edges"]]
-    el.topologies = ["t%d" % n for n in case["names"]]
+    el.topologies = [_nm(n) for n in case["names"]]
     el.motif_id = list(case["ids"])
     return el
 
@@ -167,7 +179,7 @@ def _observe(el, net):
             mid = a.get(NetworkNames.MOTIF_IDS, -1)
             # the attributes must be the very name (a str "t<k>") and motif id (an int) of the row: other types are
             # recorded as the impossible codes -3 / -2, which no row carries, so the verified checker rejects them
-            nm_code = -1 if nm is None else (int(nm[1:]) if isinstance(nm, str) and nm[:1] == "t" and nm[1:].isdigit() else -3)
+            nm_code = -1 if nm is None else _code(nm, -3)
             mid_code = mid if (isinstance(mid, int) and not isinstance(mid, bool)) else -2
             if nm_code == -3 or mid_code == -2:
                 bad_types.append([[min(u, v), max(u, v)], repr(nm), repr(mid)])
@@ -177,7 +189,7 @@ def _observe(el, net):
     try:
         back = NetworkToEdgeList.convert(net)
         cols = [[list(j) for j in back.joint_degrees], [list(e) for e in back.edge_list],
-                [int(t[1:]) if isinstance(t, str) and t[:1] == "t" and t[1:].isdigit() else 4001 for t in back.topologies],
+                [_code(t, 4001) for t in back.topologies],
                 [i if (isinstance(i, int) and not isinstance(i, bool) and 0 <= i < 4000) else 4002 for i in back.motif_id]]
         rows = sorted([[min(e), max(e)], n, i] for e, n, i in zip(cols[1], cols[2], cols[3]))
         backobs = {"ok": [cols[0], rows], "cols": cols,
@@ -200,7 +212,7 @@ def impl(case):
         if sec["damage_first_result"] and net.G.number_of_edges() > 0:
             net.G.remove_edge(*next(iter(net.G.edges())))
         el.edge_list.extend(tuple(e) for e in sec["append_edges"])
-        el.topologies.extend("t%d" % n for n in sec["append_names"])
+        el.topologies.extend(_nm(n) for n in sec["append_names"])
         el.motif_id.extend(sec["append_ids"])
         with oracles.forbid_random():
             net2 = EdgeListToNetwork.convert(el)
